@@ -287,8 +287,13 @@ def execute(sim, doc):
             "edits": doc["edits"], "faults": copy.deepcopy(doc.get("faults", [])), "max_steps": 30000, "settle_ms": 60000}
     if not doc["edits"]:
         spec["faults"] = []                  # faults are transient: with no edit after them nothing can re-trigger a regeneration
+    real = [k for k, e in enumerate(doc["edits"]) if e["kind"] != "pause"]
+    if not real:
+        spec["faults"] = []
     for f in spec["faults"]:
-        f["until"] = len(doc["edits"])       # faults stop before the final edit, also after minimisation
+        # faults stop once the final edit has been made, also after minimisation (pauses after it change nothing on disk:
+        # a fault that is still active then would hit the very regeneration that has to converge)
+        f["until"] = real[-1] + 1
     spec.update(doc["sched"])
     st = {"runs": 1}
     res = sim.run(spec, mapseed=doc["mapseed"])
